@@ -215,7 +215,8 @@ def all_nodes(root):
 
 EML_NS = "https://eml.ecoinformatics.org/eml-2.2.0"
 
-EDIT_KINDS = ("attr_value", "attr_value", "attr_value", "content", "content", "drop_child", "add_child", "attr_add", "attr_del", "swap_children")
+EDIT_KINDS = ("attr_value", "attr_value", "attr_value", "content", "content", "drop_child", "add_child", "attr_add", "attr_del", "swap_children",
+              "prefix", "rename", "tail")
 
 
 def edit_in_place(rng, t, count=None, text_xor_children=False):
@@ -243,6 +244,20 @@ def edit_in_place(rng, t, count=None, text_xor_children=False):
             if not n.children:
                 continue
             arg = rng.randrange(len(n.children))
+        elif kind == "prefix":
+            # another prefix the node's own map binds (or none)
+            cands = [p for p in list(n.nsmap) + [None] if (p is None or isinstance(p, str)) and p != n.prefix]
+            if not cands:
+                continue
+            arg = rng.choice(cands)
+        elif kind == "rename":
+            arg = rng.choice(["title", "para", "value", "renamedElement"])
+            if arg == n.name:
+                continue
+        elif kind == "tail":
+            if n.parent is None:
+                continue
+            arg = rng.choice([None, " edited tail ", "x"])
         elif kind == "add_child":
             if text_xor_children and n.content is not None:
                 continue
@@ -274,6 +289,12 @@ def apply_edits(t, desc):
             n.add_attribute(arg[0], arg[1])
         elif kind == "content":
             n.content = arg
+        elif kind == "prefix":
+            n.prefix = arg
+        elif kind == "rename":
+            n.name = arg
+        elif kind == "tail":
+            n.tail = arg
         elif kind == "drop_child":
             if arg < len(n.children):
                 n.remove_child(n.children[arg])
